@@ -777,6 +777,11 @@ func GenSchema(r *rand.Rand, o GenOpts) *Schema {
 			if n.Parent != nil && n.Parent.Kind != Choice && n.Parent.Kind != Case && !n.IsKey() && n.Kind != Case {
 				cands = append(cands, n)
 			}
+			// a whole case added to a choice of the main module, or members added to one of its cases (never the first: the
+			// choice / case has to exist in the main module)
+			if n.Parent != nil && (n.Kind == Case && n.Parent.Kind == Choice || n.Parent.Kind == Case && !n.Parent.Short) && n.Parent.Children[0] != n {
+				cands = append(cands, n)
+			}
 		})
 		for i := 0; i < 3 && len(cands) > 0; i++ {
 			n := cands[r.Intn(len(cands))]
